@@ -180,23 +180,28 @@ fn s_line(out: &mut impl Write, rng: &mut Rng, matcher: &mut Matcher) {
     let case = rng.below(3) as u32;
     let norm = rng.below(2) as u32;
     // pattern text: a few words taken from haystack-like material with markers
-    let hay = gen_hay(rng);
+    let mut hay = gen_hay(rng);
     let mut text = String::new();
-    let natoms = rng.below(4);
+    // now and then a pattern of several hundred matching atoms: its total exceeds what sixteen bits hold
+    let big = rng.chance(1, 300);
+    if big && hay.len() < 6 {
+        hay = "foo barBaz x".chars().collect();
+    }
+    let natoms = if big { 1300 + rng.below(700) } else { rng.below(4) };
     for k in 0..natoms {
         if k > 0 {
             text.push(' ');
         }
-        if rng.chance(1, 4) {
+        if !big && rng.chance(1, 4) {
             text.push('!');
         }
-        match rng.below(5) {
+        match if big { 4 } else { rng.below(5) } {
             0 => text.push('^'),
             1 => text.push('\''),
             _ => {}
         }
-        let wl = 1 + rng.below(3) as usize;
-        if !hay.is_empty() && rng.chance(3, 4) {
+        let wl = if big { 4 } else { 1 + rng.below(3) as usize };
+        if !hay.is_empty() && (big || rng.chance(3, 4)) {
             let a = rng.below(hay.len() as u64) as usize;
             let mut i = a;
             for _ in 0..wl {
@@ -210,7 +215,7 @@ fn s_line(out: &mut impl Write, rng: &mut Rng, matcher: &mut Matcher) {
                 text.push(*rng.pick(&HPOOL[..8]));
             }
         }
-        if rng.chance(1, 5) {
+        if !big && rng.chance(1, 5) {
             text.push('$');
         }
     }
